@@ -241,6 +241,28 @@ theorem result_tag (op : OpSpec) (D : Delegate S R) (x0 : Obj S) (rest : List (O
         | error e => simp [hg, hf] at h
         | ok r' => simp [hg, hf] at h; exact h.1.symm
 
+theorem tagEq_trans (a b c : Tag) (hab : TagWF a b) (hbc : TagWF b c) (hac : TagWF a c)
+    (h1 : tagEq a b = true) (h2 : tagEq b c = true) : tagEq a c = true := by
+  cases a <;> cases b <;> cases c <;> simp_all [tagEq, TagWF]
+  exact crsEq_trans _ _ _ hab hbc hac h1 h2
+
+/-- With well-formed CRS records a returned result means that **all operands pairwise** carry
+equal CRSs (not only "equal to the first"): nothing computed from two different systems. -/
+theorem no_mixed_result_pairwise (op : OpSpec) (D : Delegate S R) (x0 : Obj S) (rest : List (Obj S))
+    (r : Out R) (h : run op D (x0 :: rest) = .ok r)
+    (hwf : ∀ x ∈ x0 :: rest, ∀ y ∈ x0 :: rest, TagWF x.crs y.crs) :
+    ∀ x ∈ x0 :: rest, ∀ y ∈ x0 :: rest, tagEq x.crs y.crs = true := by
+  have h0 := no_mixed_result op D x0 rest r h
+  have hfirst : ∀ x ∈ x0 :: rest, tagEq x0.crs x.crs = true := by
+    intro x hx
+    rcases List.mem_cons.mp hx with rfl | hx
+    · exact tagEq_refl _
+    · exact h0 x hx
+  intro x hx y hy
+  have hx0 : tagEq x.crs x0.crs = true := by rw [tagEq_symm]; exact hfirst x hx
+  exact tagEq_trans x.crs x0.crs y.crs (hwf x hx x0 (List.mem_cons_self ..))
+    (hwf x0 (List.mem_cons_self ..) y hy) (hwf x hx y hy) hx0 (hfirst y hy)
+
 /-! ### the stream folds: the error comes at the first differing element -/
 
 /-- `bbox_union` / `bbox_intersection` loop: whatever follows the first differing box is never
